@@ -287,7 +287,10 @@ structure Input where
   envFmt : Fmt               -- the format really produced
   garbage : Bool             -- envelope bytes that do not parse
   ctypeOk : Bool             -- protected content type = Notary payload type
-  payload : JVal
+  payload : JVal             -- the (first) JSON document of the signed payload
+  lead : String              -- bytes the plugin wrote BEFORE that document (blanks, BOM, junk …)
+  trail : String             -- bytes it wrote AFTER it (blanks, a second document, `]`, …)
+  spaced : Bool              -- the document is rendered with insignificant blanks between tokens
   -- GenerateSignature
   gsKeyIdOk : Bool
   gsAlg : String             -- response.SigningAlgorithm (never read by the code)
@@ -373,6 +376,14 @@ def scanUnknown (checked : Bool) : JVal → Scan
     | _ => if checked then .unknown (keysOf kvs) else .panic
   | _ => if checked then .unknown [] else .panic     -- nil map: no "targetArtifact" entry
 
+/-- JSON insignificant whitespace only (RFC 8259: space, tab, LF, CR) -/
+def jsonWs (s : String) : Bool :=
+  s.toList.all (fun c => c == ' ' || c == '\t' || c == '\n' || c == '\r')
+
+/-- the payload bytes are ONE JSON document: `json.Unmarshal` (whole-input syntax check) accepts
+nothing but insignificant whitespace around the value -/
+def singleDocument (i : Input) : Bool := jsonWs i.lead && jsonWs i.trail
+
 /-- the signature verifies under the leaf of the chain (it was made with the key that leaf
 certifies: the plugin's key under its own chains, or the other key under the other key's
 chain), and core-go accepts the chain -/
@@ -400,6 +411,7 @@ def envelopePath (i : Input) : Obs :=
   else if i.garbage || i.envFmt != i.format then errObs       -- signature.ParseEnvelope
   else if !verifyOk i then errObs                             -- sigEnv.Verify()
   else if !i.ctypeOk then errObs                              -- ValidatePayloadContentType
+  else if !singleDocument i then errObs                       -- json.Unmarshal: syntax check of ALL bytes
   else match goDecodePayload i.payload with
     | none => errObs
     | some d =>
@@ -536,7 +548,8 @@ def required (i : Input) : Bool :=
     i.echoOk && !i.garbage && i.envFmt == i.format &&   -- requested format
     verifyOk i &&                                       -- verifies under its own chain
     i.ctypeOk &&                                        -- Notary payload type
-    sees i.req (goDecodePayload i.payload) &&           -- the Go reader sees the requested descriptor
+    singleDocument i &&                                 -- the signed bytes are one JSON document …
+    sees i.req (goDecodePayload i.payload) &&           -- … in which the Go reader sees the request
     topKeysExact i.payload && descKeysKnown i.payload   -- nothing unknown, exact spelling
   | .raw =>
     i.dkKeyIdOk && i.gsKeyIdOk &&                       -- answered for the requested key id
